@@ -290,14 +290,20 @@ SCENARIOS = {
     "disconnect_while_query_runs": ([("c", ["REQ", "a", {"kinds": [1]}]), ("d", ["EVENT", E1]), ("c", DROP)], ("c",), ()),
     "limit_reached_by_replacement": ([("c", ["REQ", "a", {"kinds": [1]}]), ("c", ["REQ", "b", {"kinds": [2]}]), ("c", ["REQ", "a", {"kinds": [2]}]),
                                       ("c", ["REQ", "c", {"kinds": [1]}]), ("d", ["EVENT", E1]), ("d", ["EVENT", E2])], (), ()),
+    # a query cancelled in flight must give back whatever it holds: the next REQ (only ONE query slot configured) is still answered
+    "req_after_cancelled_query": ([("c", ["REQ", "a", {"kinds": [1]}]), ("c", ["CLOSE", "a"]), ("c", ["REQ", "b", {"kinds": [2]}]), ("d", ["REQ", "z", {"kinds": [1]}])], (), ()),
+    "req_after_replaced_query": ([("c", ["REQ", "a", {"kinds": [1]}]), ("c", ["REQ", "a", {"kinds": [2]}]), ("c", ["REQ", "b", {"kinds": [1]}])], (), ()),
     "two_connections": ([("c", ["REQ", "a", {"kinds": [1]}]), ("d", ["REQ", "a", {"kinds": [1]}]), ("c", ["CLOSE", "a"]), ("d", ["EVENT", E1])], (), ()),
 }
 
 
 def make_scenario(name, backend):
     script, allow_drop, stall = SCENARIOS[name]
+    so = {"stats_interval": 1e15}
+    if name.startswith("req_after_"):
+        so.update({"num_concurrent_reqs": 1, "pool_size": 1})
     return Scenario("%s|%s" % (name, backend), backend, [("c", "1.1.1.1"), ("d", "2.2.2.2")], script,
-                    config={"subscription_limit": LIMIT}, storage_options={"stats_interval": 1e15}, allow_drop=allow_drop, stall=stall,
+                    config={"subscription_limit": LIMIT}, storage_options=so, allow_drop=allow_drop, stall=stall,
                     setup=_setup_store, horizon=30.0)
 
 
@@ -385,6 +391,14 @@ def judge_schedule(x, name, viol, cid, sig):
             notices = [1 for k, _, p in c.transcript if k == "send" and p.startswith('["NOTICE"')]
             if not notices:
                 viol.append({"case": cid, "clause": "exactly-one-eose", "sig": sig, "detail": "no EOSE for open subscription %r at quiescence" % sid})
+    # the other connection's REQs are answered too
+    d = w.conns.get("d")
+    if d is not None:
+        d_reqs = [fr for cn, fr in SCENARIOS[name][0] if cn == "d" and isinstance(fr, list) and fr[0] == "REQ"]
+        d_eose = sum(1 for k, _, p in d.transcript if k == "send" and p.startswith('["EOSE"'))
+        d_notice = sum(1 for k, _, p in d.transcript if k == "send" and p.startswith('["NOTICE"'))
+        if d_eose + d_notice < len(d_reqs) and not d.dropped:
+            viol.append({"case": cid, "clause": "exactly-one-eose", "sig": sig, "detail": "connection d: %d REQs, %d EOSE, %d NOTICE at quiescence" % (len(d_reqs), d_eose, d_notice)})
     n_subs = [len(v) for k, v in w.storage.clients.items() if str(k).startswith("1.1.1.1")]
     if n_subs and n_subs[0] > LIMIT:
         viol.append({"case": cid, "clause": "subscription-limit", "sig": sig, "detail": "connection holds %d subscriptions" % n_subs[0]})
